@@ -46,6 +46,8 @@ def run(S):
     # items that always expand (a code block with two statements) inside a list on a text line
     f6 += twopass.explore(S, max_items=2, constructs=('call', 'array'), gaps=[(), ('sp',)] if S.tier == 'quick' else [(), ('sp',), ('blk',)],
                           ws_alts=[' ', '\n'], max_spaces=3, min_items=1, last_kinds=('cblock2', 'cblock1'))
+    # content blocks `f[..]` with words, embedded code and blanks / line breaks at every position
+    f6 += twopass.explore_content(S, max_atoms=2 if S.tier == 'quick' else 3)
     twopass.report(S, 'C03', f6)
     # with reordering on, the chosen order must not depend on spacing that formatting normalises
     f4 = c19.explore_spacing(S, 2 if S.tier == 'quick' else 3)
